@@ -323,6 +323,21 @@ func (sc *c14Scenario) Run(s *simrt.Sim) {
 	if !s.WaitUntilTimeout(func() bool { return target.IsDone() }, time.Minute) {
 		sc.extra = append(sc.extra, Violation{Clause: "lifecycle", Fingerprint: "IsDone-after-return", Detail: "IsDone() still false long after the effect returned"})
 	}
+	// YieldFromIO returns the IO's value whatever the state of the coroutine object it is called on: here the
+	// target, whose effect has returned
+	{
+		var lop *Op
+		lt := s.Go("io-on-finished-cor", func() {
+			lop = h.Do("io-on-finished-cor", "YieldFromIO", 4242, func() (interface{}, error) {
+				return target.YieldFromIO(fpgo.MonadIOJustGenerics[int](4242)), nil
+			})
+		})
+		if !s.WaitUntilTimeout(lt.Done, 5*time.Minute) {
+			sc.extra = append(sc.extra, Violation{Clause: "yield-from-io", Fingerprint: "never-returns-on-finished-coroutine", Detail: "YieldFromIO(Just(4242)) called on a coroutine whose effect has returned never came back"})
+		} else if lop != nil && lop.Panic == "" && lop.Val != 4242 {
+			sc.extra = append(sc.extra, Violation{Clause: "yield-from-io", Fingerprint: "wrong-value-on-finished-coroutine", Detail: lop.String() + ": want the IO's value 4242"})
+		}
+	}
 	// the method-style constructor of the utility instance (interface{} element type): one exchange
 	{
 		var tg, cl *fpgo.CorDef[interface{}]
